@@ -290,8 +290,9 @@ def h_step(ctx, npre, op, kinds=None):
     cmd = dict(add=0, modify=1, modify_strict=2, delete=3, delete_strict=4, badcmd=5)[op]
     w.nid += 1
     m = w.sym_match(kinds)
+    # the out_port filter only has a meaning for DELETE / DELETE_STRICT; OpenFlow 1.0 says it is ignored by ADD, MODIFY and MODIFY_STRICT
     out_port = NONE_PORT
-    if op in ('delete', 'delete_strict'):
+    if op in ('delete', 'delete_strict', 'modify', 'modify_strict', 'add'):
       out_port = ctx.Ite(ctx.bool('filter'), ctx.int('outp', 1, 4), NONE_PORT)
     flags = ctx.int('oflags', 0, 3) if op in ('add', 'modify', 'modify_strict') else 0
     w.flow_mod(cmd, m, ctx.int('oprio', 0, 0xffff), ctx.int('oidle', 0, 0xffff), ctx.int('ohard', 0, 0xffff), flags, out_port,
